@@ -25,7 +25,12 @@ def check(ctx):
     ctx.rule('C16.W1', 'wrapper: one decrement / one condition evaluation, removal of own handle guarded by it, then one listener call')
     ctx.rule('C16.W2', 'removal threshold means "count after decrement <= 0"')
     ctx.rule('C16.W3', 'wrapper state is shared with the listener and initialised from the add call')
+    import os
+    from .. import witness, extract
+    witness.check_static_unit(ctx, 'C16.W3', os.path.join(extract.VERIF, 'witness', 's_meta.cpp'), 'condition call-form detection (CanInvoke)', tag='C16')
     for tu in ctx.tus:
+        from .listrules import check_invoked_in_place
+        check_invoked_in_place(ctx, tu, 'C16.W1', lambda o_: o_.cls.split('::')[0] in ('CounterRemover', 'ConditionalRemover'))
         for f in tu.fns:
             o = f.skey
             if o in ('CounterRemover::Wrapper::operator()',):
